@@ -1,5 +1,7 @@
 """Per-property configuration of /verif/check: Lean modules, tie modules, streams, judges."""
 import itertools
+import json
+import os
 import re
 
 TRUSTED_BASE = [
@@ -103,18 +105,48 @@ class FamilyCfg(Cfg):
             out.append(api(seed * 1000 + i, t, l, f, mode, hostile))
         out += self.scripts(tier)
         out += big_scripts(self.family)
+        # the family's commands as a client of the server sends them: requests generated from the command grammars (option
+        # subsets and orders, keyword case variants, boundary numbers), judged by the Lean wire model, whose command table
+        # maps each command to the model of its documented API call; only this family's commands are judged here
+        mult = 4 if tier == "thorough" else 1
+        for i in range(2 * mult):
+            out.append(dict(kind="wire", driver="wiredriver",
+                            args=["-seed", seed * 1000 + 800 + i, "-traces", 40, "-len", 100, "-stream", "valid"]))
         return out
+
+    needs_wire = True
 
     def scripts(self, tier):
         return []
 
+    def wire_family(self, op):
+        return op.startswith("wire.") and op[5:] in wire_names(self.family)
+
     def counts(self, op, v):
-        return op.startswith(self.family + ".")
+        return op.startswith(self.family + ".") or self.wire_family(op)
 
     def judge(self, op, v, mode):
+        if self.wire_family(op):
+            if v.get("M") == "0":
+                return ("violation", f"a {self.family} command sent over the wire is answered (or leaves tables) unlike the documented API call "
+                        "on the same data (wire model)")
+            return None
         if not op.startswith(self.family + "."):
             return None
         return judge_spec(v, self.listed)
+
+
+_WIRE_NAMES = {}
+
+
+def wire_names(family):
+    """the command names that `command.Parse` hands to the package of this family (committed snapshot of the dispatch table;
+    the table itself is tied by Tie.Dispatch)"""
+    if not _WIRE_NAMES:
+        with open(os.path.join(os.path.dirname(os.path.abspath(__file__)), "lean", "RedkaModel", "Tie", "expected.json")) as f:
+            for name, call in json.load(f)["dispatch"]:
+                _WIRE_NAMES.setdefault(call.split(".")[0], set()).add(name)
+    return _WIRE_NAMES.get(family, set())
 
 
 def judge_spec(v, listed):
@@ -183,32 +215,42 @@ def big_scripts(family):
                 s += "str.SetMany 12 " + " ".join(f"{e(i)} {hx('w%d' % i)}" for i in idx[:12]) + "\n"
                 s += "str.GetMany 12 " + " ".join(e(i) for i in idx[:12]) + "\nkey.Len\n"
     out = [dict(kind="script", script=s)] if s else []
-    # argument lists longer than any batching constant (620 names / members / fields in ONE call, 310 of them present):
-    # counts and effects must be those of the whole list
+    # argument lists longer than any batching constant (1240 names / members / fields in ONE call), with the present ones
+    # alternating (every second one) or in one block (the first half: whole stretches of the list then hit nothing, others
+    # hit everything), the list given in ascending and in descending order: counts and effects must be those of the whole list
     def n4(i):
         return hx("m%04d" % i)
-    N = 620
-    allm = " ".join(n4(i) for i in range(N))
-    some = " ".join(n4(i) for i in range(0, N, 2))
+    N = 1240
     b = ""
-    for mode in ("db", "tx"):
-        b += f"--- {mode}\n"
-        if family == "set":
-            b += (f"!set.Add {K1} {N // 2} {some}\nset.Add {K1} {N} {allm}\nset.Len {K1}\n"
-                  f"set.Delete {K1} {N // 2} {some}\nset.Len {K1}\nset.Delete {K1} {N} {allm}\nset.Len {K1}\n")
-        elif family == "hash":
-            pairs_some = " ".join(f"{n4(i)} {hx('v')}" for i in range(0, N, 2))
-            pairs_new = " ".join(f"{n4(i)} {hx('w')}" for i in range(0, N, 2))
-            b += (f"!hash.SetMany {K1} {N // 2} {pairs_some}\nhash.GetMany {K1} {N} {allm}\nhash.SetMany {K1} {N // 2} {pairs_new}\n"
-                  f"hash.Len {K1}\nhash.Delete {K1} {N} {allm}\nhash.Len {K1}\n")
-        elif family == "zset":
-            z_some = " ".join(f"{n4(i)} 1p0" for i in range(0, N, 2))
-            z_new = " ".join(f"{n4(i)} 1p1" for i in range(0, N, 2))
-            b += (f"!zset.AddMany {K1} {N // 2} {z_some}\nzset.AddMany {K1} {N // 2} {z_new}\nzset.Len {K1}\nzset.Count {K1} 1p1 1p1\n"
-                  f"zset.Delete {K1} {N} {allm}\nzset.Len {K1}\n")
-        elif family == "str":
-            sm = " ".join(f"{n4(i)} {hx('v')}" for i in range(0, N, 2))
-            b += (f"!str.SetMany {N // 2} {sm}\nstr.GetMany {N} {allm}\nkey.Count {N} {allm}\nkey.Delete {N} {allm}\nkey.Len\n")
+    for pat in ("alt", "block"):
+        present = list(range(0, N, 2)) if pat == "alt" else list(range(0, N // 2))
+        for order in ("asc", "desc"):
+            if pat == "alt" and order == "desc":
+                continue
+            idx = list(range(N)) if order == "asc" else list(range(N - 1, -1, -1))
+            allm = " ".join(n4(i) for i in idx)
+            some = " ".join(n4(i) for i in present)
+            H = len(present)
+            for mode in ("db", "tx"):
+                if pat == "block" and mode == "tx":
+                    continue
+                b += f"--- {mode}\n"
+                if family == "set":
+                    b += (f"!set.Add {K1} {H} {some}\nset.Add {K1} {N} {allm}\nset.Len {K1}\n"
+                          f"set.Delete {K1} {H} {some}\nset.Len {K1}\nset.Delete {K1} {N} {allm}\nset.Len {K1}\nset.Items {K1}\n")
+                elif family == "hash":
+                    pairs_some = " ".join(f"{n4(i)} {hx('v')}" for i in present)
+                    pairs_new = " ".join(f"{n4(i)} {hx('w')}" for i in present)
+                    b += (f"!hash.SetMany {K1} {H} {pairs_some}\nhash.GetMany {K1} {N} {allm}\nhash.SetMany {K1} {H} {pairs_new}\n"
+                          f"hash.Len {K1}\nhash.Delete {K1} {N} {allm}\nhash.Len {K1}\nhash.Items {K1}\n")
+                elif family == "zset":
+                    z_some = " ".join(f"{n4(i)} 1p0" for i in present)
+                    z_new = " ".join(f"{n4(i)} 1p1" for i in present)
+                    b += (f"!zset.AddMany {K1} {H} {z_some}\nzset.AddMany {K1} {H} {z_new}\nzset.Len {K1}\nzset.Count {K1} 1p1 1p1\n"
+                          f"zset.Delete {K1} {N} {allm}\nzset.Len {K1}\nzset.RangeRank {K1} 0 -1 0\n")
+                elif family == "str":
+                    sm = " ".join(f"{n4(i)} {hx('v')}" for i in present)
+                    b += (f"!str.SetMany {H} {sm}\nstr.GetMany {N} {allm}\nkey.Count {N} {allm}\nkey.Delete {N} {allm}\nkey.Len\n")
     if b:
         out.append(dict(kind="script", script=b))
     return out
@@ -439,6 +481,16 @@ class C05(FamilyCfg):
                     for name in ("InterStore", "UnionStore"):
                         s += "--- db\n" + setup + f"zset.{name} {dest} {kt} {agg}\nzset.RangeRank {dest} 0 10 0\nzset.Len {dest}\n"
         out.append(dict(kind="script", script=s))
+        # the combining commands as clients spell them: every aggregate in lower, upper and mixed case, with and without
+        # scores, on sets that share members with different scores (so that sum, min and max all differ)
+        w = "---\n1 ZADD za 1 a 2 b 3 c\n1 ZADD zb 10 b 0.5 c 7 d\n1 ZADD zc -1 c 4 a\n"
+        for agg in ("", "AGGREGATE sum", "AGGREGATE SUM", "aggregate Min", "AGGREGATE MIN", "Aggregate max", "AGGREGATE MAX", "AGGREGATE Max"):
+            for keys in ("2 za zb", "3 za zb zc", "2 zb zc", "1 za"):
+                for cmd in ("ZUNION", "ZINTER"):
+                    w += f"1 {cmd} {keys} {agg} WITHSCORES\n1 {cmd} {keys} WITHSCORES {agg}\n"
+                for cmd in ("ZUNIONSTORE", "ZINTERSTORE"):
+                    w += f"1 {cmd} dst {keys} {agg}\n1 ZRANGE dst 0 -1 WITHSCORES\n"
+        out.append(dict(kind="wirescript", driver="wiredriver", script=w))
         return out
 
 
